@@ -102,6 +102,9 @@ class Inliner(object):
                                                              isinstance(f.value, ast.Name)):
           hit = True
           break
+      elif isinstance(x, ast.For) and isinstance(x.target, (ast.Tuple, ast.List)) and isinstance(x.iter, (ast.Name, ast.Tuple, ast.List)):
+        hit = True           # possibly a loop over a literal table (see _unroll_literal_loops)
+        break
       elif isinstance(x, ast.If):
         names = [y for y in ast.walk(x.test) if isinstance(y, ast.Name)]
         if names and isinstance(x.test, (ast.Name, ast.UnaryOp, ast.BoolOp)):
@@ -131,6 +134,10 @@ class Inliner(object):
             for h in s.handlers:
               visit(h.body)
     visit(tree.body)
+    un = _unroll_literal_loops(tree.body, module)
+    if un is not None:
+      tree.body = un
+      changed[0] = True
     return tree if changed[0] else None
 
   def _def(self, node):
@@ -274,6 +281,10 @@ class Inliner(object):
       out.extend(self._stmt(s, fn, stack, inlined, depth))
     if _subst_flags(out) | _move_flags(out, fn):
       inlined.append('<flag>')
+    un = _unroll_literal_loops(out, getattr(self, '_module', None))
+    if un is not None:
+      inlined.append('<flag>')
+      out = un
     return out
 
   def _stmt(self, s, fn, stack, inlined, depth):
@@ -661,6 +672,102 @@ def _yield_ends_last_loop(defnode):
     return False
   # no return in the preamble that the consumer's break would have to skip ... returns are fine (tail rule applies)
   return True
+
+
+MAX_UNROLL = 8
+
+
+def _plain_element(e):
+  """an element of a literal table that can stand wherever the loop variable stood: names, attributes, constants"""
+  if isinstance(e, (ast.Tuple, ast.List)):
+    return all(_plain_element(x) for x in e.elts)
+  if isinstance(e, ast.Constant):
+    return True
+  if isinstance(e, ast.Name):
+    return True
+  if isinstance(e, ast.Attribute):
+    return _plain_element(e.value)
+  return False
+
+
+def _literal_table(block, i, module):
+  """elements of the iterable of the for statement block[i] when that is a literal tuple / list of plain elements:
+  written in place, bound to a local by the statement just before the loop, or bound once at module level."""
+  loop = block[i]
+  it = loop.iter
+  if isinstance(it, (ast.Tuple, ast.List)):
+    lit, drop = it, None
+  elif isinstance(it, ast.Name) and i > 0 and isinstance(block[i - 1], ast.Assign) and len(block[i - 1].targets) == 1 and \
+      isinstance(block[i - 1].targets[0], ast.Name) and block[i - 1].targets[0].id == it.id and \
+      isinstance(block[i - 1].value, (ast.Tuple, ast.List)):
+    lit, drop = block[i - 1].value, None
+  elif isinstance(it, ast.Name) and module is not None and len(module.globals.get(it.id, [])) == 1 and \
+      isinstance(module.globals[it.id][0], (ast.Tuple, ast.List)) and \
+      not any(isinstance(x, ast.Global) and it.id in x.names for x in ast.walk(module.tree)):
+    lit, drop = module.globals[it.id][0], None
+  else:
+    return None
+  if not (0 < len(lit.elts) <= MAX_UNROLL) or not all(_plain_element(e) for e in lit.elts):
+    return None
+  return list(lit.elts)
+
+
+def _unroll_literal_loops(block, module):
+  """for a, b in ((x1, y1), (x2, y2)): BODY   ->   BODY[a:=x1, b:=y1]; BODY[a:=x2, b:=y2]
+  for a table written as a literal of plain elements (names / attributes / constants), a body without break / continue /
+  else that does not assign the loop variables.  The elements of such a table are evaluated without side effects, so the
+  substitution changes nothing; rules then see each row as an ordinary statement (e.g. one addHandler call per row)."""
+  out = None
+  i = 0
+  cur = list(block)
+  while i < len(cur):
+    st = cur[i]
+    if isinstance(st, ast.For) and not st.orelse and not any(isinstance(x, (ast.Break, ast.Continue)) for x in walk_no_nested(st)):
+      elts = _literal_table(cur, i, module)
+      tnames = [x for x in ast.walk(st.target) if isinstance(x, ast.Name)]
+      body_stores = {x.id for b in st.body for x in ast.walk(b) if isinstance(x, ast.Name) and isinstance(x.ctx, (ast.Store, ast.Del))}
+      if elts is not None and tnames and not ({x.id for x in tnames} & body_stores):
+        copies = []
+        ok = True
+        for e in elts:
+          sub = _match_target(st.target, e)
+          if sub is None:
+            ok = False
+            break
+
+          class S(ast.NodeTransformer):
+            def visit_Name(self, n, sub=sub):
+              if n.id in sub and isinstance(n.ctx, ast.Load):
+                return ast.copy_location(_clone(sub[n.id]), n)
+              return n
+          for b in st.body:
+            nb = S().visit(_clone(b))
+            ast.fix_missing_locations(nb)
+            copies.append(nb)
+        # the loop variables must not be read after the loop (they would hold the last row)
+        later = {x.id for b in cur[i + 1:] for x in ast.walk(b) if isinstance(x, ast.Name) and isinstance(x.ctx, ast.Load)}
+        if ok and not ({x.id for x in tnames} & later):
+          cur[i:i + 1] = copies
+          out = cur
+          i += len(copies)
+          continue
+    i += 1
+  return out
+
+
+def _match_target(target, elt):
+  """{loop variable: element expression} for one row, or None if the shapes differ"""
+  if isinstance(target, ast.Name):
+    return {target.id: elt}
+  if isinstance(target, (ast.Tuple, ast.List)) and isinstance(elt, (ast.Tuple, ast.List)) and len(target.elts) == len(elt.elts):
+    out = {}
+    for t, e in zip(target.elts, elt.elts):
+      m = _match_target(t, e)
+      if m is None:
+        return None
+      out.update(m)
+    return out
+  return None
 
 
 def _delegation_call(s):
